@@ -31,7 +31,8 @@ def valid_route(g, r):
     inner = r[1:-1]
     if len(set(inner)) != len(inner) or 0 in inner:
         return False, None
-    time, load, cost = Fraction(0), g["init"], Fraction(0)
+    # the vehicle leaves the depot when the depot's window opens
+    time, load, cost = nodes[0][2], g["init"], Fraction(0)
     for a, b in zip(r, r[1:]):
         if (a, b) not in arcs:
             return False, None
